@@ -242,7 +242,19 @@ func CorpusHistories(scratch string, names map[string]bool) ([]*History, []strin
 						t.Note = "vote-bad-choice"
 						return t
 					}
-					return []*TxSpec{bad(2), bad(3), bad(-1), bad(1 << 30)}
+					// ... also by a voter that HAS a vote on record (a refused vote must not withdraw it): the first
+					// non-existing option (= number of options) and others; and the same choice sent again by the
+					// same voter, which counts once
+					bad0 := func(choice int32) *TxSpec {
+						t := s.TxVote(s.Val(0), ph(), choice)
+						t.Note = "vote-bad-choice-by-recorded-voter"
+						return t
+					}
+					again := s.TxVote(s.Val(0), ph(), 0)
+					again.Note = "vote-same-choice-again"
+					last := bad0(3)
+					last.Nonce++ // after the accepted repetition
+					return []*TxSpec{bad(2), bad(3), bad(-1), bad(1 << 30), bad0(2), bad0(-1), again, last}
 				}
 			case 6:
 				if ph() != nil {
